@@ -127,18 +127,69 @@ out.append("/-- `Router::search` takes `&self` (1/0) -/")
 out.append(f"def searchTakesSharedRef : Nat := {selfref}")
 
 # --- C17: the OCI example's route table and name pattern
-osrc = strip_comments(read_where("examples/oci/src/lib.rs", r"router\.route\(", root="examples/oci/src"))
+# string constants of the example (`const X: &str = "…";` / `static X: &str = r"…";`), so that a table written with names
+# instead of literals is still read
+oci_consts = {}
+for rel in all_rs("examples/oci/src"):
+    for cm in re.finditer(r"(?:const|static)\s+([A-Z_][A-Z0-9_]*)\s*:\s*&(?:'static\s+)?str\s*=\s*(r?)\"(.*?)\"\s*;", strip_comments(read(rel)), flags=re.S):
+        oci_consts[cm.group(1)] = cm.group(3)
+
+
+def oci_str(tok):
+    tok = tok.strip()
+    m_ = re.fullmatch(r"r?\"(.*)\"", tok, flags=re.S)
+    if m_:
+        return m_.group(1)
+    return oci_consts.get(tok.split("::")[-1], tok)
+
+
+# lib.rs first (registration order), then every other file of the example (registrations may live next to the handlers)
+osrc = "\n".join(strip_comments(read(rel)) for rel in ["examples/oci/src/lib.rs"] + [r_ for r_ in all_rs("examples/oci/src") if r_ != "examples/oci/src/lib.rs"])
 routes = []
-for call in re.findall(r"router\.route\((.*?)\);", osrc, flags=re.S):
-    parts = [p.strip() for p in call.split(",") if p.strip()]
-    if len(parts) >= 3:
-        routes.append((parts[0].replace("Method::", ""), parts[1].strip('"'), parts[2].split("::")[-1]))
+METHOD = r"(?:\w+::)*Method::(\w+)"
+
+
+def route_calls(text, var=None, methods=()):
+    """(method, template, handler) of the `X.route(M, T, h)` calls in `text`; with `var`, calls whose first argument is that
+    loop variable count once for every method of the loop"""
+    found = []
+    for call in re.findall(r"\.route\((.*?)\)\s*;", text, flags=re.S):
+        parts = [p_.strip() for p_ in call.split(",") if p_.strip()]
+        if len(parts) < 3:
+            continue
+        mm = re.fullmatch(METHOD, parts[0])
+        if mm:
+            found.append((mm.group(1), oci_str(parts[1]), parts[2].split("::")[-1]))
+        elif var and re.fullmatch(re.escape(var) + r"(\.clone\(\))?", parts[0]):
+            for m_ in methods:
+                found.append((m_, oci_str(parts[1]), parts[2].split("::")[-1]))
+    return found
+
+
+# registrations inside `for m in [Method::A, Method::B] { … }` first, then the direct ones
+rest_src = osrc
+for lm in list(re.finditer(r"for\s+(\w+)\s+in\s+\[(.*?)\]\s*\{((?:[^{}]|\{[^{}]*\})*)\}", osrc, flags=re.S)):
+    ms = re.findall(METHOD, lm.group(2))
+    if ms:
+        routes += route_calls(lm.group(3), lm.group(1), ms)
+        rest_src = rest_src.replace(lm.group(0), "")
+routes += route_calls(rest_src)
+if not routes:
+    # a table of (Method::M, template, handler) tuples registered in a loop
+    for m_, t_, h_ in re.findall(r"\(\s*" + METHOD + r"\s*,\s*(r?\"[^\"]*\"|[A-Za-z_][\w:]*)\s*,\s*([\w:]+)\s*,?\s*\)", osrc):
+        routes.append((m_, oci_str(t_), h_.split("::")[-1]))
 status["oci_routes"] = "ok" if routes else "unavailable"
+# the same table for the harness (one reader of the example's source, not two)
+with open(os.path.join(os.path.dirname(OUT), "oci_routes.tsv"), "w") as f_:
+    for m_, t_, h_ in routes:
+        f_.write(f"{m_}\t{t_}\t{h_}\n")
 out.append("/-- `router.route(Method::M, \"template\", handler)` calls of examples/oci/src/lib.rs: (M, template, handler) -/")
 out.append("def ociRoutes : List (Bytes × Bytes × Bytes) := " + lst(f"({bl(m_)}, {bl(t)}, {bl(h)})" for m_, t, h in routes))
 nsrc = read_where("examples/oci/src/constraints/name.rs", r"Regex::new\(", root="examples/oci/src")
-m = re.search(r"Regex::new\(r\"(.*?)\"\)", nsrc, flags=re.S)
-pattern = m.group(1) if m else ""
+m = re.search(r"Regex::new\(\s*(r?\".*?\"|[A-Za-z_][\w:]*)\s*\)", nsrc, flags=re.S)
+pattern = oci_str(m.group(1)) if m else ""
+if m and pattern == m.group(1).strip():
+    pattern = ""    # a name that is not a string constant of the example
 status["oci_name_pattern"] = "ok" if pattern else "unavailable"
 out.append("/-- the regular expression literal of examples/oci/src/constraints/name.rs -/")
 out.append("def ociNamePattern : Bytes := " + bl(pattern))
@@ -146,9 +197,34 @@ m = re.search(r"const\s+NAME\s*:\s*&'static\s+str\s*=\s*\"([^\"]*)\"", nsrc)
 out.append("def ociConstraintName : Bytes := " + bl(m.group(1) if m else ""))
 
 # --- C19: the format strings of the route-table errors (`impl Display` of src/errors/{insert,delete,constraint}.rs)
+def unescape(lit, raw):
+    return lit if raw else lit.encode("utf-8").decode("unicode_escape").encode("latin-1").decode("utf-8")
+
+
+def str_expr(expr, consts):
+    """the value of a string expression made of literals, `concat!( … )` of such, and constants of the file"""
+    expr = expr.strip().rstrip(",").strip()
+    m_ = re.fullmatch(r"(r?)\"((?:\\.|[^\"\\])*)\"", expr, flags=re.S)
+    if m_:
+        return unescape(m_.group(2), m_.group(1))
+    m_ = re.fullmatch(r"concat!\s*\((.*)\)", expr, flags=re.S)
+    if m_:
+        parts = [str_expr(p_.group(0), consts) for p_ in re.finditer(r"r?\"(?:\\.|[^\"\\])*\"|[A-Za-z_]\w*", m_.group(1))]
+        return None if any(p_ is None for p_ in parts) else "".join(parts)
+    return consts.get(expr)
+
+
 def display_formats(rel):
-    """[(Variant, format string)] of the `write!(f, "...")` arms of the file's `impl Display`, in source order"""
+    """[(Variant, format string)] of the `write!(f, FMT, args…)` arms of the `impl Display`, in source order. FMT is a string
+    literal or `concat!` of literals; a named argument bound to a string constant of the file (`help = CONFLICT_HELP`) is
+    substituted into the format, so that what is left are the payload fields"""
     src_ = read_where(rel[0], r"impl\s+Display\s+for\s+" + rel[1] + r"\b")
+    consts = {}
+    for _ in range(3):      # constants may be built from constants
+        for cm in re.finditer(r"const\s+([A-Z_][A-Z0-9_]*)\s*:\s*&(?:'static\s+)?str\s*=\s*(.*?);", src_, flags=re.S):
+            v = str_expr(cm.group(2), consts)
+            if v is not None:
+                consts[cm.group(1)] = v
     m_ = re.search(r"impl\s+Display\s+for\s+" + rel[1] + r"\s*\{(.*?)\n\}\n", src_, flags=re.S)
     if not m_:
         return []
@@ -157,12 +233,15 @@ def display_formats(rel):
     arms = list(re.finditer(r"Self::(\w+)\s*(\{[^{}]*\}|\([^()]*\))?\s*=>", body_))
     for i_, a in enumerate(arms):
         seg = body_[a.end(): arms[i_ + 1].start() if i_ + 1 < len(arms) else len(body_)]
-        w = re.search(r"write!\(\s*f\s*,\s*(r?)\"(.*?)\"\s*,?\s*\)", seg, flags=re.S)
+        w = re.search(r"write!\(\s*f\s*,\s*(r?\"(?:\\.|[^\"\\])*\"|concat!\s*\((?:[^()]|\([^()]*\))*\))\s*(,.*?)?\)\s*[,}\n]", seg, flags=re.S)
         if not w:
             continue
-        text = w.group(2)
-        if not w.group(1):
-            text = text.encode("utf-8").decode("unicode_escape").encode("latin-1").decode("utf-8")
+        text = str_expr(w.group(1), consts)
+        if text is None:
+            continue
+        for am in re.finditer(r"(\w+)\s*=\s*([A-Z_][A-Z0-9_]*)\b", w.group(2) or ""):
+            if am.group(2) in consts:
+                text = text.replace("{" + am.group(1) + "}", consts[am.group(2)].replace("{", "{{").replace("}", "}}"))
         res.append((a.group(1), text, seg))
     return res
 
